@@ -125,8 +125,16 @@ def run_roundtrip(spec, rec: Recorder):
             online.load_into_cache(offline, rkid, rk)
             kw = dict(server="dc.c01.test", username="u", password="p", auth_protocol="ntlm")
             reads0 = mon.CLOCK.reads
+            forced = None
+            nbytes = -(-rk.private_key_length // 8)
+            if mode == "dc-public" and alg == "DH" and nbytes > 32 and i % 2 == 0:
+                # steer the ephemeral DH key (if the library draws it from os.urandom) so that the shared secret starts with a
+                # zero byte: the 1-in-256 class in which a padding mistake shows; both sides of the library agree on it, the
+                # independent decryptor below does not
+                forced = {nbytes: [online.dh_ephemeral_for_leading_zero_secret(rng, online.server_private(rk, rkid, sid, position_of(now_ft))).to_bytes(nbytes, "big") for _ in range(2)]}
+                rec.count("leading_zero_dh_secret_protects")
             try:
-                with mem.installed(), (mon.CLOCK.at_ns(mon.filetime_to_ns(ft, rng.randrange(100))) if ft is not None else _null()):
+                with mem.installed(), (mon.CLOCK.at_ns(mon.filetime_to_ns(ft, rng.randrange(100))) if ft is not None else _null()), (mon.ENTROPY.record(forced) if forced else _null()):
                     if mode == "offline":
                         if i % 7 == 3:
                             with mon.STEPS.measure(50 * (4000 + 60 * ptlen)):
